@@ -488,3 +488,30 @@ MUTANTS = [
     {"id": "C13-palette-find-pair-shifted", "prop": "C13", "expect": "INDEX-VALID/image::ColorPalette::find/delegate",
      "edits": [(I, "        self.kdtree.find(color)\n    }\n", "        let (index, found) = self.kdtree.find(color);\n        (index + 1, found)\n    }\n")]},
 ]
+
+# ---- refactoring shapes of seeded/benign/C12-Q, C13-P (and their breaking counterparts) -------------------------------------------------------
+PAL_NEW_OLD = ("        if colors.is_empty() {\n            None\n        } else {\n            let kdtree = KDTree::new(&colors);\n"
+               "            Some(Self { colors, kdtree })\n        }\n")
+_OPAQUE = lambda test: "        fn is_opaque(color: RGBA) -> bool {\n            " + test + "\n        }\n\n"
+_FLATTEN = ("        fn blend(bg: RGBA, color: RGBA) -> RGBA {\n            if is_opaque(color) {\n                return color;\n            }\n"
+            "            bg.blend_over(color)\n        }\n\n")
+
+MUTANTS += [
+    {"id": "C13-benign-palette-new-bool-then", "prop": "C13", "benign": True,
+     "edits": [(I, PAL_NEW_OLD, "        (!colors.is_empty()).then(|| {\n            let kdtree = KDTree::new(&colors);\n            Self { colors, kdtree }\n        })\n")]},
+    {"id": "C13-benign-palette-new-early-return", "prop": "C13", "benign": True,
+     "edits": [(I, PAL_NEW_OLD, "        if colors.is_empty() {\n            return None;\n        }\n        let kdtree = KDTree::new(&colors);\n        Some(Self { colors, kdtree })\n")]},
+    {"id": "C13-palette-new-then-not-guarded-by-emptiness", "prop": "C13", "expect": "palette-new",
+     "edits": [(I, PAL_NEW_OLD, "        (colors.capacity() > 0).then(|| {\n            let kdtree = KDTree::new(&colors);\n            Self { colors, kdtree }\n        })\n")]},
+    {"id": "C13-benign-blend-fn-opaque-helper-early-return", "prop": "C13", "benign": True,
+     "edits": [(I, BLEND_FN_OLD, _OPAQUE("color.to_rgba()[3] >= 255") + _FLATTEN)]},
+    {"id": "C13-benign-blend-fn-opaque-helper-eq-max", "prop": "C13", "benign": True,
+     "edits": [(I, BLEND_FN_OLD, _OPAQUE("color.to_rgba()[3] == u8::MAX") + _FLATTEN)]},
+    {"id": "C13-benign-blend-fn-match-alpha", "prop": "C13", "benign": True,
+     "edits": [(I, BLEND_FN_OLD, "        fn blend(bg: RGBA, color: RGBA) -> RGBA {\n            match color.to_rgba()[3] {\n                u8::MAX => color,\n"
+                                 "                _ => bg.blend_over(color),\n            }\n        }\n\n")]},
+    {"id": "C13-blend-fn-opaque-helper-threshold-254", "prop": "C13", "expect": "BLEND-AGREE",
+     "edits": [(I, BLEND_FN_OLD, _OPAQUE("color.to_rgba()[3] >= 254") + _FLATTEN)]},
+    {"id": "C13-blend-fn-opaque-helper-tests-red", "prop": "C13", "expect": "BLEND-AGREE",
+     "edits": [(I, BLEND_FN_OLD, _OPAQUE("color.to_rgba()[0] >= 255") + _FLATTEN)]},
+]
